@@ -32,7 +32,8 @@ Record oracle := {
 
 Inductive lop :=
 | LStart | LFinish | LTimeout | LPlay | LUpdateBlind (b : blind) | LPause | LClose | LRelease
-| LSetup (n : nat) | LMember | LArm (b : blind).
+| LSetup (n : nat) | LMember | LArm (b : blind)
+| LRetry.   (* tableGameOpen's own retry (every 3 s for 30 s) after an open that was refused because the blinds were not set *)
 
 Definition set_status (s : lstate) (st : tstatus) : lstate :=
   {| l_status := st; l_gc := l_gc s; l_has_game := l_has_game s; l_blind := l_blind s; l_gblind := l_gblind s;
@@ -102,6 +103,9 @@ Definition lstep (min : nat) (s : lstate) (op : lop) (o : oracle) : lstate :=
          l_gate_ready := l_gate_ready s; l_armed := l_armed s |}
   | LSetup n => set_gate s (l_gc s + 1) n false
   | LMember => s
+  | LRetry =>
+      (* only a refusal for missing blinds is retried (ErrTableOpenGameFailed); a break level is not *)
+      if l_gate_ready s && l_started s && negb (is_break (l_blind s)) && (2 <=? l_gate_n s)%nat then fire (set_gate s (l_gate_count s) (l_gate_n s) false) (o_live_in o) else s
   | LArm b =>
       {| l_status := l_status s; l_gc := l_gc s; l_has_game := l_has_game s; l_blind := l_blind s; l_gblind := l_gblind s;
          l_released := l_released s; l_started := l_started s; l_gate_count := l_gate_count s; l_gate_n := l_gate_n s;
